@@ -156,6 +156,12 @@ func opSequence(c *Ctx, sh *shared, dir string, sc scenario) {
 		return
 	}
 	tags, raw := parseTrace(trace, e.a.UnitDir(unit))
+	if len(tags) > 0 && tags[0] != 10 {
+		sh.mu.Lock()
+		sh.im.Hist("opseq:strace-attached-too-late") // an overloaded machine: the first calls were missed
+		sh.mu.Unlock()
+		return
+	}
 	if len(tags) == 0 {
 		sh.mu.Lock()
 		sh.im.Hist("opseq:empty-trace") // ptrace not permitted here
